@@ -19,6 +19,11 @@ static mut TAB: Tab = Tab { n: 0, e: [Entry { addr: 0, size: 0, id: 0, state: 0,
 static LOCK: AtomicBool = AtomicBool::new(false);
 pub static ODD: AtomicBool = AtomicBool::new(false);
 pub static OVERFLOW: AtomicUsize = AtomicUsize::new(0);
+/// arena mode: byte buffers are carved back to back (2-aligned, no red zones) out of one static arena, so that consecutive allocations are ADJACENT in memory
+pub static ARENA: AtomicBool = AtomicBool::new(false);
+const ARENA_LEN: usize = 1 << 22;
+static mut ARENA_MEM: [u8; ARENA_LEN] = [0; ARENA_LEN];
+static ARENA_TOP: AtomicUsize = AtomicUsize::new(0);
 thread_local! { static TRACK: Cell<bool> = const { Cell::new(false) }; }
 thread_local! { static INSIDE: Cell<bool> = const { Cell::new(false) }; }
 struct Guard;
@@ -44,6 +49,17 @@ unsafe fn push_ev(t: &mut Tab, e: Ev) { if t.nev < t.ev.len() { t.ev[t.nev] = e;
 unsafe fn find(t: &Tab, addr: usize) -> Option<usize> { (0..t.n).rev().find(|&i| t.e[i].addr == addr && t.e[i].kind != 2) }
 
 unsafe fn alloc_buf(t: &mut Tab, size: usize) -> (*mut u8, u32) {
+    if ARENA.load(Ordering::Relaxed) {
+        let top = ARENA_TOP.load(Ordering::Relaxed); let sz2 = (size + 1) & !1usize;
+        if top + sz2 <= ARENA_LEN {
+            ARENA_TOP.store(top + sz2, Ordering::Relaxed);
+            let user = (std::ptr::addr_of_mut!(ARENA_MEM) as *mut u8).add(top);
+            std::ptr::write_bytes(user, 0xCD, size);
+            let id = t.next_id; t.next_id += 1;
+            if t.n < MAXE { t.e[t.n] = Entry { addr: user as usize, size, id, state: 1, kind: 0, base: 0, real: 0, align: 1 }; t.n += 1; } else { OVERFLOW.fetch_add(1, Ordering::Relaxed); }
+            return (user, id);
+        }
+    }
     let real = size + 2 * RZ + 2;
     let base = System.alloc(Layout::from_size_align_unchecked(real, 16));
     if base.is_null() { return (base, 0); }
@@ -106,13 +122,13 @@ pub fn register_static(p: *const u8, size: usize) -> u32 { unsafe { let _g = loc
 pub fn take_events() -> Vec<Ev> { let v: Vec<Ev>; unsafe { let _g = lock(); let t = tab(); let n = t.nev; t.nev = 0; let mut tmp = [Ev::AllocCtrl; 4096]; tmp[..n].copy_from_slice(&t.ev[..n]); drop(_g); v = tmp[..n].to_vec(); } v }
 /// (block id, offset, live) of an address inside (or one past the end of) a ledger block
 pub fn locate(addr: usize) -> Option<(u32, usize, bool, u8)> { unsafe { let _g = lock(); let t = tab(); for i in (0..t.n).rev() { let e = &t.e[i]; if e.kind != 1 && addr >= e.addr && addr <= e.addr + e.size { return Some((e.id, addr - e.addr, e.state == 1, e.kind)); } } None } }
-pub fn redzones_ok() -> bool { unsafe { let _g = lock(); let t = tab(); for i in 0..t.n { let e = &t.e[i]; if e.kind == 0 { let b = std::slice::from_raw_parts(e.base as *const u8, e.real); let u = e.addr - e.base; if b[..u].iter().any(|x| *x != 0xFB) || b[u + e.size..].iter().any(|x| *x != 0xFB) { return false; } } } true } }
+pub fn redzones_ok() -> bool { unsafe { let _g = lock(); let t = tab(); for i in 0..t.n { let e = &t.e[i]; if e.kind == 0 && e.base != 0 { let b = std::slice::from_raw_parts(e.base as *const u8, e.real); let u = e.addr - e.base; if b[..u].iter().any(|x| *x != 0xFB) || b[u + e.size..].iter().any(|x| *x != 0xFB) { return false; } } } true } }
 pub fn live_summary() -> (Vec<u32>, usize) { unsafe { let _g = lock(); let t = tab(); let mut v = vec![]; let mut c = 0; for i in 0..t.n { let e = &t.e[i]; if e.state == 1 { if e.kind == 0 { v.push(e.id) } else if e.kind == 1 { c += 1 } } } (v, c) } }
 pub fn live_bytes() -> usize { unsafe { let _g = lock(); let t = tab(); (0..t.n).filter(|&i| t.e[i].state == 1 && t.e[i].kind == 0).map(|i| t.e[i].size).sum() } }
 /// end of a case: release quarantined and leaked memory, forget everything
-pub fn reset(odd: bool) { unsafe { let _g = lock(); let t = tab(); for i in 0..t.n { let e = t.e[i]; if e.kind == 0 { System.dealloc(e.base as *mut u8, Layout::from_size_align_unchecked(e.real, 16)); } else if e.kind == 1 { System.dealloc(e.base as *mut u8, Layout::from_size_align_unchecked(e.size, e.align)); } } t.n = 0; t.nev = 0; t.next_id = 1; ODD.store(odd, Ordering::Relaxed); } }
+pub fn reset(odd: bool) { unsafe { let _g = lock(); let t = tab(); for i in 0..t.n { let e = t.e[i]; if e.kind == 0 { if e.base != 0 { System.dealloc(e.base as *mut u8, Layout::from_size_align_unchecked(e.real, 16)); } } else if e.kind == 1 { System.dealloc(e.base as *mut u8, Layout::from_size_align_unchecked(e.size, e.align)); } } t.n = 0; t.nev = 0; t.next_id = 1; ODD.store(odd, Ordering::Relaxed); ARENA_TOP.store(0, Ordering::Relaxed); } }
 /// compaction for very long runs (C18): drop the records of freed blocks
-pub fn compact() { unsafe { let _g = lock(); let t = tab(); let mut j = 0; for i in 0..t.n { let e = t.e[i]; if e.state == 2 { if e.kind == 0 { System.dealloc(e.base as *mut u8, Layout::from_size_align_unchecked(e.real, 16)); } else if e.kind == 1 { System.dealloc(e.base as *mut u8, Layout::from_size_align_unchecked(e.size, e.align)); } } else { t.e[j] = e; j += 1; } } t.n = j; } }
+pub fn compact() { unsafe { let _g = lock(); let t = tab(); let mut j = 0; for i in 0..t.n { let e = t.e[i]; if e.state == 2 { if e.kind == 0 { if e.base != 0 { System.dealloc(e.base as *mut u8, Layout::from_size_align_unchecked(e.real, 16)); } } else if e.kind == 1 { System.dealloc(e.base as *mut u8, Layout::from_size_align_unchecked(e.size, e.align)); } } else { t.e[j] = e; j += 1; } } t.n = j; } }
 pub fn stop_tracking() { let _ = TRACK.try_with(|t| t.set(false)); }
 pub fn note_owner(asref: bool, id: u32) { unsafe { let _g = lock(); let t = tab(); push_ev(t, if asref { Ev::OwnerAsRef(id) } else { Ev::OwnerDrop(id) }); } }
 pub fn block_size(addr: usize) -> Option<usize> { unsafe { let _g = lock(); let t = tab(); for i in (0..t.n).rev() { let e = &t.e[i]; if e.kind == 0 && addr >= e.addr && addr <= e.addr + e.size { return Some(e.size); } } None } }
